@@ -43,6 +43,10 @@ class C12(BtProp):
         out = []
         for i in range(n):
             prof = bt_gen.PROFILES[rng.choice(["core", "coreprobe", "par", "dec", "stock"])]
+            if rng.random() < 0.1:
+                # a tenth of the histories have leaves that answer INVALID now and then: a behaviour that was ticked is
+                # visited and recorded whatever it answered
+                prof = bt_gen.Profile(**dict(vars(prof), w_outcome={"R": 35, "S": 30, "F": 20, "I": 15}))
             spec = bt_gen.gen_tree(rng, prof)
             vis = "".join(rng.choice("oof") for _ in range(rng.randint(0, 3))) + "s"
             vis = "".join(rng.sample(vis, len(vis)))
